@@ -163,7 +163,7 @@ class File(Component):
 
     def _write(self, data):
         try:
-            if not isinstance(data, bytes):
+            if isinstance(data, str):
                 data = data.encode(self._encoding)
 
             nbytes = fd_write(self._fd.fileno(), data)
